@@ -4,5 +4,6 @@ CONSTANTS
   Ids = {1, 2, 3, 4, 5, 6}
   Streams = {1, 2, 3}
   MaxN = 1000000
+  MaxTok = 1000000
 POSTCONDITION Accepted
 CHECK_DEADLOCK FALSE
